@@ -560,4 +560,97 @@ theorem tq_defGet_core (e : Enc) (b : SecBuf) (str : Option SecBuf) (hI : b.Inv)
           pure, Except.pure]
         rw [C14.eq_ofNat_of_toNat _ _ hx1v, C14.eq_ofNat_of_toNat _ _ hx2v, C14.eq_ofNat_of_toNat _ _ hx3v]
 
+/-! ### the entry count of the version accessors: the constructors' scan of `.dynamic` -/
+
+/-- what the constructor's loop finds in the dynamic entries `es` (string table `tbl`): the value, truncated to
+    `Elf_Word`, of the first entry among the reported ones (`Spec.dynCount`) that `get_entry` delivers with tag `tag`
+    — 0 (the member initialiser) without one; `fuel` = number of entries still to visit, `i` = next index -/
+def specVerScan (es : List Spec.DynEntry) (tbl : Option Bytes) (tag : Nat) : Nat → Nat → BitVec 32
+  | 0, _ => 0
+  | fuel + 1, i =>
+    if i < Spec.dynCount es then
+      match Spec.dynGet es tbl i with
+      | .ok t v _ => if t = tag then BitVec.ofNat 32 v else specVerScan es tbl tag fuel (i + 1)
+      | _ => specVerScan es tbl tag fuel (i + 1)
+    else 0
+
+theorem verCountGo_spec (need : Bool) (c : Bytes) (tbl : Option Bytes) (n : BitVec 64) :
+    ∀ (fuel : Nat) (a : DynAcc) (i : BitVec 64), C12.Good a c tbl →
+      n.toNat = Spec.dynCount (Spec.entriesOf a.cfg c) → i.toNat + fuel ≤ n.toNat →
+      (if need then TQ.verCountGo vr_ctor_loop vr_ctor_hit vr_ctor_i_incr vr_num_trunc n fuel a i
+       else TQ.verCountGo vd_ctor_loop vd_ctor_hit vd_ctor_i_incr vd_num_trunc n fuel a i) =
+        .ok (specVerScan (Spec.entriesOf a.cfg c) tbl (if need then DT_VERNEEDNUM else DT_VERDEFNUM) fuel i.toNat) := by
+  intro fuel
+  induction fuel with
+  | zero => intro a i _ _ _; cases need <;> rfl
+  | succ f ih =>
+    intro a i hG hn hi
+    have hnl := n.isLt
+    simp only [Nat.reducePow] at hnl
+    have hlt : i.toNat < n.toNat := by omega
+    obtain ⟨a', r, hg, hG', hcfg', hout⟩ := C12.getEntry_ok a c tbl hG i
+    have hi1 : (i + 1).toNat = i.toNat + 1 := by
+      have h1' : (1 : BitVec 64).toNat = 1 := rfl
+      simp only [BitVec.toNat_add, Nat.reducePow]
+      rw [h1']; omega
+    have ih' := ih a' (i + 1) hG' (by rw [hcfg']; exact hn) (by rw [hi1]; omega)
+    rw [hcfg', hi1] at ih'
+    have hlt' : i.toNat < Spec.dynCount (Spec.entriesOf a.cfg c) := by rw [← hn]; exact hlt
+    cases need
+    · simp only [Bool.false_eq_true, if_false] at ih' ⊢
+      unfold TQ.verCountGo specVerScan
+      have hc : vd_ctor_loop i n = true := by simp only [vd_ctor_loop, BitVec.ult, decide_eq_true_eq]; exact hlt
+      simp only [hc, if_true, hg, hlt', ← hout, vd_ctor_i_incr]
+      cases r with
+      | invalid => simp only [C12.outOf, vd_ctor_hit, Bool.false_and, Bool.false_eq_true, if_false]; exact ih'
+      | nostr t v => simp only [C12.outOf, vd_ctor_hit, Bool.false_and, Bool.false_eq_true, if_false]; exact ih'
+      | ok t v s =>
+        simp only [C12.outOf, vd_ctor_hit, Bool.true_and]
+        by_cases ht : t = BitVec.setWidth 64 (BitVec.ofNat 32 DT_VERDEFNUM)
+        · have : t.toNat = DT_VERDEFNUM := by rw [ht]; rfl
+          simp only [ht, beq_self_eq_true, if_true, this, vd_num_trunc]
+          first | rfl | (congr 1; apply BitVec.eq_of_toNat_eq; simp)
+        · have : ¬ t.toNat = DT_VERDEFNUM := by
+            intro h; apply ht; apply BitVec.eq_of_toNat_eq; rw [h]; rfl
+          have hb : (t == BitVec.setWidth 64 (BitVec.ofNat 32 DT_VERDEFNUM)) = false := by simpa using ht
+          simp only [hb, Bool.false_eq_true, if_false, this]; exact ih'
+    · simp only [if_true] at ih' ⊢
+      unfold TQ.verCountGo specVerScan
+      have hc : vr_ctor_loop i n = true := by simp only [vr_ctor_loop, BitVec.ult, decide_eq_true_eq]; exact hlt
+      simp only [hc, if_true, hg, hlt', ← hout, vr_ctor_i_incr]
+      cases r with
+      | invalid => simp only [C12.outOf, vr_ctor_hit, Bool.false_and, Bool.false_eq_true, if_false]; exact ih'
+      | nostr t v => simp only [C12.outOf, vr_ctor_hit, Bool.false_and, Bool.false_eq_true, if_false]; exact ih'
+      | ok t v s =>
+        simp only [C12.outOf, vr_ctor_hit, Bool.true_and]
+        by_cases ht : t = BitVec.setWidth 64 (BitVec.ofNat 32 DT_VERNEEDNUM)
+        · have : t.toNat = DT_VERNEEDNUM := by rw [ht]; rfl
+          simp only [ht, beq_self_eq_true, if_true, this, vr_num_trunc]
+          first | rfl | (congr 1; apply BitVec.eq_of_toNat_eq; simp)
+        · have : ¬ t.toNat = DT_VERNEEDNUM := by
+            intro h; apply ht; apply BitVec.eq_of_toNat_eq; rw [h]; rfl
+          have hb : (t == BitVec.setWidth 64 (BitVec.ofNat 32 DT_VERNEEDNUM)) = false := by simpa using ht
+          simp only [hb, Bool.false_eq_true, if_false, this]; exact ih'
+
+/-- the constructors' count on a consistent dynamic accessor (C12's `Good`, count not cached or cached) -/
+theorem verCount_spec (need : Bool) (a : DynAcc) (c : Bytes) (tbl : Option Bytes) (hG : C12.Good a c tbl) :
+    TQ.verCount need (some a) =
+      .ok (specVerScan (Spec.entriesOf a.cfg c) tbl (if need then DT_VERNEEDNUM else DT_VERDEFNUM)
+        (Spec.dynCount (Spec.entriesOf a.cfg c)) 0) := by
+  obtain ⟨a1, n, hn, hG1, hcfg1, _, hnv⟩ := C12.entriesNum_ok a c tbl hG
+  have h := verCountGo_spec need c tbl n n.toNat a1 0 hG1 (by rw [hcfg1]; exact hnv) (by simp)
+  rw [hcfg1] at h
+  have h0 : (0 : BitVec 64).toNat = 0 := rfl
+  rw [h0] at h
+  have e1 : vd_ctor_i_init = 0 := by decide
+  have e2 : vr_ctor_i_init = 0 := by decide
+  unfold TQ.verCount
+  cases need
+  · simp only [Bool.false_eq_true, if_false] at h ⊢
+    simp only [vd_ctor_nodyn, Option.isNone_some, Bool.false_eq_true, if_false, hn, vd_ctor_count, e1]
+    rw [← hnv]; exact h
+  · simp only [if_true] at h ⊢
+    simp only [vr_ctor_nodyn, Option.isNone_some, Bool.false_eq_true, if_false, hn, vr_ctor_count, e2]
+    rw [← hnv]; exact h
+
 end ElfioVerif.ComposeTables
